@@ -10,9 +10,11 @@ package schema
 
 //@ func (Rb).Validate
 //@   nopanic
+//@   ensures !is(result, *strconv.NumError)
 //@   ensures iff(result == nil, r.Start <= i && i <= r.End)
 //@ func (Urb).Validate
 //@   nopanic
+//@   ensures !is(result, *strconv.NumError)
 //@   ensures iff(result == nil, r.Start <= i && i <= r.End)
 //@ func (Drb).Validate
 //@   requires i == i && r.Start == r.Start && r.End == r.End
@@ -56,12 +58,14 @@ package schema
 //@           (len(i.rbs) == 0 || exists(k, 0, len(i.rbs), i.rbs[k].Start <= int_val(s) && int_val(s) <= i.rbs[k].End)))
 //@   loop 0 invariant forall(k, 0, loopidx+1, !(i.rbs[k].Start <= int_val(s) && int_val(s) <= i.rbs[k].End))
 //@   loop 0 invariant iff(loopidx >= 0, e != nil)
+//@   loop 0 invariant !is(e, *strconv.NumError)
 //@ func (*uinteger).Validate
 //@   requires i != nil && (i.t == 8 || i.t == 16 || i.t == 32 || i.t == 64)
 //@   ensures iff(result == nil, uint_lex(s) && uint_fits(int_val(s), i.t) &&
 //@           (len(i.rbs) == 0 || exists(k, 0, len(i.rbs), i.rbs[k].Start <= int_val(s) && int_val(s) <= i.rbs[k].End)))
 //@   loop 0 invariant forall(k, 0, loopidx+1, !(i.rbs[k].Start <= int_val(s) && int_val(s) <= i.rbs[k].End))
 //@   loop 0 invariant iff(loopidx >= 0, e != nil)
+//@   loop 0 invariant !is(e, *strconv.NumError)
 
 // Node attributes used by the compiler's filters (pure accessors).
 //@ func (Node).Config
